@@ -149,14 +149,14 @@ def c19_table(pe: bool, pc: bool, pu: bool, pl: bool, e0: int, e1: int, c0: int,
     return True
 
 
-def c19_saveto(kind: int, has_entities: bool, s0: int, s1: int, s2: int) -> bool:
+def c19_saveto(kind: int, n: int, has_entities: bool, s0: int, s1: int, s2: int) -> bool:
     """
     pre: 33 <= s0 <= 126 and s0 != 36 and 33 <= s1 <= 126 and s1 != 36 and 33 <= s2 <= 126 and s2 != 36
     post: _ == True
     """
     from spec.xmlnames import is_ncname
 
-    P = S(s0, s1, s2)
+    P = S(*((s0, s1, s2)[:n]))
     q = {"type": "text", "name": "q1", "label": "L1"}
     other = {"type": "text", "name": "q2", "label": "L2"}
     if kind == 0:  # plain question
@@ -214,12 +214,25 @@ specialise(
     "C19",
     "b.saveto",
     c19_saveto,
-    {"kind": [0, 1, 2, 3, 4]},
-    timeout=400,
+    {"kind": [0, 1, 2, 3, 4], "n": [3]},
+    tiers=("thorough",),
+    timeout=2400,
     kernel=K,
     shims=("S1", "S2", "S3", "S4"),
     symbolic="save_to cell of 3 symbolic characters; entities sheet present (boolean)",
-    bounds="row kind fixed per instance: question / question in group / question in repeat / group row / repeat row; property name length 3 over U+0021-U+007E minus '$'",
+    bounds="row kind fixed per instance; property name length 3 over U+0021-U+007E minus '$'",
+    weight=1500,
+)
+specialise(
+    "C19",
+    "b.saveto",
+    c19_saveto,
+    {"kind": [0, 1, 2, 3, 4], "n": [2]},
+    timeout=400,
+    kernel=K,
+    shims=("S1", "S2", "S3", "S4"),
+    symbolic="save_to cell of 2 symbolic characters; entities sheet present (boolean)",
+    bounds="row kind fixed per instance: question / question in group / question in repeat / group row / repeat row; property name length 2 over U+0021-U+007E minus '$'",
     weight=80,
 )
 
@@ -257,12 +270,25 @@ specialise(
     "C19",
     "c.dataset",
     c19_dataset,
-    {"n": [1, 2, 3]},
+    {"n": [3]},
+    tiers=("thorough",),
+    timeout=2400,
+    kernel=K,
+    shims=("S1", "S2", "S3", "S4"),
+    symbolic="dataset (list_name) cell of 3 symbolic characters",
+    bounds="n = 3 over U+0021-U+007E minus '$'",
+    weight=1500,
+)
+specialise(
+    "C19",
+    "c.dataset",
+    c19_dataset,
+    {"n": [1, 2]},
     timeout=400,
     kernel=K,
     shims=("S1", "S2", "S3", "S4"),
     symbolic="dataset (list_name) cell of n symbolic characters",
-    bounds="n in 1..3 over U+0021-U+007E minus '$'",
+    bounds="n in 1..2 over U+0021-U+007E minus '$'",
     weight=60,
 )
 
